@@ -131,6 +131,43 @@ def run(ctx, rep):
                 rep.ok("C14.1", cons, "upper bound against the size and a lower bound against 0", loc)
             else:
                 rep.violation("C14.1", cons, f"`{ast.unparse(st.test)}` bounds `{key}` from above only: a negative value is accepted and silently addresses a different qubit (Python negative indexing / wrong arithmetic), e.g. `register r[2]; foo r[-1]`", loc, witness="register r[2]\nfoo r[-1]")
+    # strictness: an index is valid for 0 <= i < size, an exclusive end for stop <= size
+    for f in ix.functions.values():
+        if f.module != REGMOD or isinstance(f.node, ast.Lambda):
+            continue
+        cfg = CFG(f.body)
+        fl = FuncFlow(ix, T, f)
+        for st, lbl in raising_guards(f, cfg):
+            if lbl is not True:
+                continue
+            for n in ast.walk(st.test):
+                if not (isinstance(n, ast.Compare) and len(n.ops) == 1):
+                    continue
+                a, b, op = n.left, n.comparators[0], n.ops[0]
+                # normalise to  <quantity> OP <size>
+                if is_size_expr(b, fl) and not is_size_expr(a, fl):
+                    q, o = a, op
+                elif is_size_expr(a, fl) and not is_size_expr(b, fl):
+                    q = b
+                    o = {ast.Lt: ast.Gt(), ast.LtE: ast.GtE(), ast.Gt: ast.Lt(), ast.GtE: ast.LtE()}.get(type(op))
+                    if o is None:
+                        continue
+                else:
+                    continue
+                if not isinstance(o, (ast.Gt, ast.GtE)):
+                    continue
+                qtxt = ast.unparse(q)
+                exclusive_end = "stop" in qtxt
+                cons = construct_of(f, f"bound-strictness:{qtxt[:30]}")
+                loc = f"{f.path}:{st.lineno}"
+                if exclusive_end and isinstance(o, ast.Gt):
+                    rep.ok("C14.1", cons, f"`{ast.unparse(n)}`: an exclusive end may equal the size", loc)
+                elif not exclusive_end and isinstance(o, ast.GtE):
+                    rep.ok("C14.1", cons, f"`{ast.unparse(n)}`: an index equal to the size is rejected", loc)
+                elif exclusive_end:
+                    rep.violation("C14.1", cons, f"`{ast.unparse(n)}` rejects an alias that ends exactly at the end of its source (`map a r[0:size]`)", loc)
+                else:
+                    rep.violation("C14.1", cons, f"`{ast.unparse(n)}` accepts the index size itself: `register r[2]; foo r[2]` passes the check (one past the last qubit)", loc, witness="register r[2]\nfoo r[2]")
     if sites == 0:
         raise AnalysisError("C14.1: no range check found in core/register.py (anchor vanished)")
     # the index check of resolve_qubit applies to aliases as well: it dominates every return
